@@ -45,7 +45,11 @@ CheckRun(r, k) ==
       instrAll == r.mode \in {"tooled", "inplace", "tweak", "tweak2", "tweak_cond"}
                   \/ (r.mode = "probe" /\ \E i \in DOMAIN r.sels : r.sels[i].focus = "$x")
       instrV(v) == instrAll \/ (\E i \in DOMAIN r.sels : r.sels[i].focus = v \/ \E j \in DOMAIN r.sels[i].ctx : r.sels[i].ctx[j] = v)
-      absent == IF HasAbsent(r.log) \/ (\E j \in DOMAIN r.result : r.result[j] = "ABSENT") \/ StreamAbsent(r)
+      \* an overriding probe's pipeline is handed the tentative value of the binding: for a declared-only variable there is none
+      inOverrideEventOnly == StreamAbsent(r) /\ ~HasAbsent(r.log) /\ ~(\E j \in DOMAIN r.result : r.result[j] = "ABSENT")
+                             /\ r.mode \in {"ovprobe", "catprobe", "ovseq1", "ovseq2"}
+      absent == IF inOverrideEventOnly THEN << F(k, "AbsentInOverrideEvent", r.mode, "") >>
+                ELSE IF HasAbsent(r.log) \/ (\E j \in DOMAIN r.result : r.result[j] = "ABSENT") \/ StreamAbsent(r)
                 THEN << F(k, "AbsentEscapes", r.mode,
                           IF instrAll \/ (leakvars # {} /\ \A v \in leakvars : instrV(v)) THEN "instrumented" ELSE "not-instrumented") >> ELSE <<>>
   IN IF r.act_err # "" THEN << F(k, "Activation", r.act_err, "") >>
